@@ -2,8 +2,8 @@ package exec
 
 import (
 	"fmt"
-	"sort"
 	"math"
+	"sort"
 	"strconv"
 	"strings"
 	"testing"
